@@ -343,6 +343,7 @@ OPTION_PROBES = {
     ],
     "quantized_po2": [
         ("bits", 4), ("max_value", 2.0), ("max_value", 0.5),
+        ("max_value", 4.0, {"bits": 2}), ("max_value", 1.0, {"bits": 3}),
         ("use_stochastic_rounding", True), ("quadratic_approximation", True),
         ("log2_rounding", "floor"), ("qnoise_factor", 0.5),
         ("qnoise_factor", 0.0),
@@ -350,6 +351,8 @@ OPTION_PROBES = {
     ],
     "quantized_relu_po2": [
         ("bits", 4), ("max_value", 2.0), ("negative_slope", 0.25),
+        ("max_value", 4.0, {"bits": 1}), ("max_value", 0.5, {"bits": 2}),
+        ("max_value", 3.0, {"bits": 2, "quadratic_approximation": True}),
         ("use_stochastic_rounding", True), ("quadratic_approximation", True),
         ("log2_rounding", "floor"), ("qnoise_factor", 0.5),
         ("use_ste", False, {"qnoise_factor": 0.5}),
